@@ -1,0 +1,68 @@
+//! Verification hooks (cargo feature `verif-hooks`, off by default).
+//!
+//! A minimal association-list stand-in for the subset of `std::collections::HashMap` used by the
+//! `Vec` array backend. Bounded model checkers cannot get through std's SipHash/hashbrown
+//! implementation; with this feature on, `connected_components::to_dense` and
+//! `VecArray::sparse_bincount` use this map instead, everything around the map being the real code.
+use core::ops::Index;
+
+pub struct HashMap<K, V> {
+    entries: Vec<(K, V)>,
+}
+
+pub struct Entry<'a, K, V> {
+    map: &'a mut HashMap<K, V>,
+    key: K,
+}
+
+impl<K: PartialEq, V> HashMap<K, V> {
+    #[allow(clippy::new_without_default)]
+    pub fn new() -> Self {
+        HashMap {
+            entries: Vec::new(),
+        }
+    }
+
+    pub fn get(&self, k: &K) -> Option<&V> {
+        self.entries.iter().find(|(q, _)| q == k).map(|(_, v)| v)
+    }
+
+    pub fn insert(&mut self, k: K, v: V) -> Option<V> {
+        for e in self.entries.iter_mut() {
+            if e.0 == k {
+                return Some(core::mem::replace(&mut e.1, v));
+            }
+        }
+        self.entries.push((k, v));
+        None
+    }
+
+    pub fn entry(&mut self, key: K) -> Entry<'_, K, V> {
+        Entry { map: self, key }
+    }
+
+    pub fn keys(&self) -> impl Iterator<Item = &K> {
+        self.entries.iter().map(|(k, _)| k)
+    }
+}
+
+impl<'a, K: PartialEq, V> Entry<'a, K, V> {
+    pub fn or_insert(self, default: V) -> &'a mut V {
+        let pos = self.map.entries.iter().position(|(q, _)| *q == self.key);
+        let i = match pos {
+            Some(i) => i,
+            None => {
+                self.map.entries.push((self.key, default));
+                self.map.entries.len() - 1
+            }
+        };
+        &mut self.map.entries[i].1
+    }
+}
+
+impl<K: PartialEq, V> Index<&K> for HashMap<K, V> {
+    type Output = V;
+    fn index(&self, k: &K) -> &V {
+        self.get(k).expect("no entry found for key")
+    }
+}
